@@ -102,6 +102,15 @@ def _api():
             return None
         return b.as_encoded_array([["0|1\t1|1\n", "0/0\t./.\n", "1|0\t0|0\n"][i % 3] for i in range(n)])
 
+    def genotype_rows_matrix(b, table, fmt):
+        # the same rows as a C-contiguous 2-D character matrix (not a ragged array): ravel() of it is a view
+        n = call(len, table)
+        if raised(n) or n == 0:
+            return None
+        rows = [["0|1\t1|1\n", "0/0\t./.\n", "1|0\t0|0\n"][i % 3] for i in range(n)]
+        raw = np.frombuffer("".join(rows).encode("ascii"), dtype=np.uint8).copy().reshape(n, len(rows[0]))
+        return b.EncodedArray(raw, b.BaseEncoding)
+
     def ints_text_plus(b, table, fmt):
         # '+'-signed and unsigned numbers, no negative one in the batch
         v = _int_col(table, fmt)
@@ -208,6 +217,24 @@ def _api():
     def f_to_phased_genotype_rows(b, x):
         from bionumpy.encodings.vcf_encoding import PhasedGenotypeRowEncoding
         return PhasedGenotypeRowEncoding.encode(x)
+
+    # -- one operand without any interval (Interval.empty(), or a filter that kept nothing)
+    def _empty():
+        import bionumpy.datatypes as dt
+        return dt.Interval.empty()
+
+    def f_count_overlap_empty(b, x):
+        return b.arithmetics.count_overlap(x, _empty())
+
+    def f_count_overlap_empty_first(b, x):
+        return b.arithmetics.count_overlap(_empty(), x)
+
+    def f_intersect_empty(b, x):
+        return b.arithmetics.intersect(x, _empty())
+
+    def f_subtract_empty(b, x):
+        from bionumpy.arithmetics import subtract
+        return subtract(x, _empty())
 
     def f_sort(b, x):
         return b.arithmetics.sort_intervals(x)
@@ -353,6 +380,10 @@ def _api():
             ("str_to_int_split_pieces", ints_text_split_pieces, f_str_to_int), ("str_to_float_row_view", floats_text_row_view, f_str_to_float),
             ("as_encoded_array_genotype_rows", genotype_rows_text, f_to_genotype_rows),
             ("phased_genotype_rows_encode", genotype_rows_text, f_to_phased_genotype_rows),
+            ("as_encoded_array_genotype_matrix", genotype_rows_matrix, f_to_genotype_rows),
+            ("phased_genotype_matrix_encode", genotype_rows_matrix, f_to_phased_genotype_rows),
+            ("count_overlap_with_empty", intervals, f_count_overlap_empty), ("count_overlap_empty_first", intervals, f_count_overlap_empty_first),
+            ("intersect_with_empty", intervals, f_intersect_empty), ("subtract_empty", intervals, f_subtract_empty),
             ("sort_intervals", intervals, f_sort), ("merge_intervals", intervals, f_merge),
             ("get_boolean_mask", intervals, f_mask), ("get_pileup", intervals, f_pileup),
             ("get_reverse_complement", dna, f_revcomp), ("get_kmers", dna, f_kmers),
